@@ -3,6 +3,7 @@
 package main
 
 import (
+	"encoding/base32"
 	"fmt"
 	"go/token"
 	"go/types"
@@ -145,7 +146,8 @@ func (e *Engine) intrinsic(fn *ssa.Function, args []Val) (Val, bool) {
 		k := e.ghostKey(args[0].(Ptr))
 		return Bool{C: e.locks != nil && e.locks[k] != 0}, true
 	case "vSymbolic":
-		return Bool{C: !e.concrete}, true
+		// true inside symgo (symbolic exploration and concrete re-execution alike), false natively
+		return Bool{C: true}, true
 	case "vOpaqueBytes":
 		// an opaque byte-string object standing for e.g. a ciphertext: unobservable content
 		return Iface{T: e.opaqueT, V: e.newOpaque(e.argStr(args[0], name), args[1:]...)}, true
@@ -590,6 +592,21 @@ func init() {
 			return Tuple{c, Closure{Native: func(e *Engine, a []Val) Val { return nil }}}
 		},
 		"time.Now": func(e *Engine, fn *ssa.Function, args []Val) Val { return zero(fn.Signature.Results().At(0).Type()) },
+		"github.com/fxamacker/cbor/v2.Marshal":   stubCborMarshal,
+		"github.com/fxamacker/cbor/v2.Unmarshal": stubCborUnmarshal,
+		"internal/bytealg.CountString": stubCount,
+		"internal/bytealg.Count":       stubCount,
+		"internal/bytealg.IndexString": stubIndex,
+		"internal/bytealg.Index":       stubIndex,
+		"strings.Index":                stubIndex,
+		"bytes.Index":                  stubIndex,
+		"internal/bytealg.LastIndexByteString": stubLastIndexByte,
+		"internal/bytealg.LastIndexByte":       stubLastIndexByte,
+		"strings.LastIndexByte":                stubLastIndexByte,
+		"(github.com/ipfs/go-cid.Cid).String": stubCidString,
+		"github.com/ipfs/go-cid.Decode":       stubCidDecode,
+		"sort.Slice":       stubSortSlice,
+		"sort.SliceStable": stubSortSlice,
 		"reflect.DeepEqual": func(e *Engine, fn *ssa.Function, args []Val) Val {
 			return e.deepEqual(args[0], args[1], 0)
 		},
@@ -964,4 +981,203 @@ func (e *Engine) deepEqual(a, b Val, depth int) Bool {
 	}
 	unsup("reflect.DeepEqual on %T", a)
 	return Bool{}
+}
+
+// ---- CBOR numeric codec model ----
+// Marshal of int64 / float64 / float32 / nil produces a fixed-width (valid, non-shortest) CBOR item whose
+// payload bytes are the big-endian bytes of the (possibly symbolic) number; Unmarshal inverts it.
+// Assumed: the real fxamacker codec round-trips numbers.
+
+func (e *Engine) beBytes(x Int, n int) []Val {
+	out := make([]Val, n)
+	for i := 0; i < n; i++ {
+		sh := uint((n - 1 - i) * 8)
+		if !x.sym() {
+			out[i] = Int{W: 8, C: (x.C >> sh) & 0xff}
+		} else {
+			out[i] = Int{W: 8, T: fmt.Sprintf("((_ extract %d %d) %s)", sh+7, sh, x.T)}
+		}
+	}
+	return out
+}
+
+func (e *Engine) fromBE(cells []Val, w int) Int {
+	allc := true
+	var c uint64
+	parts := make([]string, len(cells))
+	for i, b := range cells {
+		bi := b.(Int)
+		if bi.sym() {
+			allc = false
+		}
+		c = c<<8 | (bi.C & 0xff)
+		parts[i] = bi.term()
+	}
+	if allc {
+		return Int{W: w, C: c}
+	}
+	return Int{W: w, T: e.nameBV("(concat "+strings.Join(parts, " ")+")", w)}
+}
+
+func stubCborMarshal(e *Engine, fn *ssa.Function, args []Val) Val {
+	v := args[0].(Iface)
+	mk := func(cells []Val) Val {
+		a := Agg{F: cells}
+		return Tuple{Slice{O: e.newObj(a), Len: len(cells), Cap: len(cells)}, Iface{}}
+	}
+	if v.T == nil {
+		return mk([]Val{Int{W: 8, C: 0xf6}})
+	}
+	switch x := v.V.(type) {
+	case Int:
+		if x.W != 64 {
+			unsup("cbor.Marshal of %d-bit integer", x.W)
+		}
+		// model encoding: one header byte + the 64 bits in two's complement (any injective encoding
+		// serves: the bytes are only ever read back by the Unmarshal model)
+		return mk(append([]Val{Int{W: 8, C: 0x1b}}, e.beBytes(x, 8)...))
+	case Flt:
+		bits := stubFloatBits(e, fn, []Val{x}).(Int)
+		if x.W == 32 {
+			return mk(append([]Val{Int{W: 8, C: 0xfa}}, e.beBytes(bits, 4)...))
+		}
+		return mk(append([]Val{Int{W: 8, C: 0xfb}}, e.beBytes(bits, 8)...))
+	}
+	unsup("cbor.Marshal of %s", v.T)
+	return nil
+}
+
+func stubCborUnmarshal(e *Engine, fn *ssa.Function, args []Val) Val {
+	cells := e.bytesOf(args[0])
+	dst := args[1].(Iface)
+	p, ok := dst.V.(Ptr)
+	if !ok || dst.T == nil {
+		unsup("cbor.Unmarshal into %v", dst.T)
+	}
+	et := dst.T.(*types.Pointer).Elem()
+	fail := func() Val { return e.opaqueErr("stderror", mkStr("cbor: cannot unmarshal")) }
+	if len(cells) == 0 {
+		return fail()
+	}
+	hdr := cells[0].(Int)
+	is := func(c uint64) bool { return e.branch(intEq(hdr, Int{W: 8, C: c})) }
+	bt, _ := et.Underlying().(*types.Basic)
+	if bt == nil {
+		unsup("cbor.Unmarshal into %s", et)
+	}
+	switch {
+	case bt.Info()&types.IsInteger != 0 && width(bt) == 64:
+		if len(cells) == 9 && is(0x1b) {
+			v := e.fromBE(cells[1:], 64)
+			v.S = isSigned(et)
+			e.store(p, v)
+			return Iface{}
+		}
+		// shortest-form small unsigned integers 0..23 (what harnesses may store as literals)
+		if len(cells) == 1 && !hdr.sym() && hdr.C <= 0x17 {
+			e.store(p, Int{W: 64, S: isSigned(et), C: hdr.C})
+			return Iface{}
+		}
+		return fail()
+	case bt.Kind() == types.Float64:
+		if len(cells) == 9 && is(0xfb) {
+			e.store(p, stubFloatFromBits(e, fn, []Val{e.fromBE(cells[1:], 64)}))
+			return Iface{}
+		}
+		return fail()
+	case bt.Kind() == types.Float32:
+		if len(cells) == 5 && is(0xfa) {
+			e.store(p, stubFloatFromBits(e, fn, []Val{e.fromBE(cells[1:], 32)}))
+			return Iface{}
+		}
+		return fail()
+	}
+	unsup("cbor.Unmarshal into %s", et)
+	return nil
+}
+
+// sort.Slice / sort.SliceStable: insertion sort through the less closure (this is exactly what the real
+// pdqsort does for n <= 12; larger inputs are refused)
+func stubSortSlice(e *Engine, fn *ssa.Function, args []Val) Val {
+	x := args[0].(Iface)
+	sl, ok := x.V.(Slice)
+	if !ok {
+		unsup("sort.Slice on %T", x.V)
+	}
+	if sl.Len > 12 && fn.Name() == "Slice" {
+		unsup("sort.Slice over more than 12 elements")
+	}
+	cells := e.cells(sl)
+	less := args[1]
+	for i := 1; i < len(cells); i++ {
+		for j := i; j > 0; j-- {
+			r := e.callVal(less, []Val{i64(int64(j)), i64(int64(j - 1))}).(Bool)
+			if !e.branch(r) {
+				break
+			}
+			cells[j], cells[j-1] = cells[j-1], cells[j]
+		}
+	}
+	return nil
+}
+
+func stubCount(e *Engine, fn *ssa.Function, args []Val) Val {
+	n := 0
+	c := args[1].(Int)
+	for _, b := range e.bytesOf(args[0]) {
+		if e.branch(intEq(b.(Int), c)) {
+			n++
+		}
+	}
+	return i64(int64(n))
+}
+
+func stubIndex(e *Engine, fn *ssa.Function, args []Val) Val {
+	h, nd := e.bytesOf(args[0]), e.bytesOf(args[1])
+	for i := 0; i+len(nd) <= len(h); i++ {
+		_, eq := lexCmp(h[i:i+len(nd)], nd)
+		if e.branch(eq) {
+			return i64(int64(i))
+		}
+	}
+	return i64(-1)
+}
+
+func stubLastIndexByte(e *Engine, fn *ssa.Function, args []Val) Val {
+	cells := e.bytesOf(args[0])
+	c := args[1].(Int)
+	for i := len(cells) - 1; i >= 0; i-- {
+		if e.branch(intEq(cells[i].(Int), c)) {
+			return i64(int64(i))
+		}
+	}
+	return i64(-1)
+}
+
+// ---- go-cid: textual form of CIDv1 (multibase base32 lower, no padding) computed natively ----
+var b32lower = base32.NewEncoding("abcdefghijklmnopqrstuvwxyz234567").WithPadding(base32.NoPadding)
+
+func stubCidString(e *Engine, fn *ssa.Function, args []Val) Val {
+	a, ok := args[0].(Agg)
+	if ok && len(a.F) == 1 {
+		if str, ok := a.F[0].(Str); ok {
+			if cs, ok := str.concrete(); ok && len(cs) > 2 && cs[0] == 1 {
+				return mkStr("b" + b32lower.EncodeToString([]byte(cs)))
+			}
+		}
+	}
+	return e.callBody(fn, args, nil)
+}
+
+func stubCidDecode(e *Engine, fn *ssa.Function, args []Val) Val {
+	if str, ok := args[0].(Str); ok {
+		if cs, ok := str.concrete(); ok && len(cs) > 10 && cs[0] == 'b' {
+			raw, err := b32lower.DecodeString(cs[1:])
+			// only the shape produced by the String model: CIDv1, one-byte codec, sha2-256 multihash
+			if err == nil && len(raw) == 36 && raw[0] == 1 && raw[1] < 0x80 && raw[2] == 0x12 && raw[3] == 0x20 {
+				return Tuple{Agg{F: []Val{mkStr(string(raw))}}, Iface{}}
+			}
+		}
+	}
+	return e.callBody(fn, args, nil)
 }
